@@ -83,7 +83,12 @@ pub fn unhex(s: &str) -> Option<Vec<u8>> {
         .collect()
 }
 
+/// 16 hex digits of the bit pattern; every NaN is printed as the canonical quiet NaN (Lean's
+/// `Float.toBits` canonicalises NaNs, so payload and sign of a NaN are not part of the protocol)
 pub fn f64hex(x: f64) -> String {
+    if x.is_nan() {
+        return "7ff8000000000000".to_string();
+    }
     format!("{:016x}", x.to_bits())
 }
 
